@@ -1026,13 +1026,35 @@ class ParserField:
 
         type = self.type
         # trans = context.transformer
+        given = value
+
+        def failed(error):
+            # the policy of the field (on_error, or the invalid_values option) decides what a value that fails becomes
+            error_option = self.get_on_error(context.options)
+            if error_option == context.options.EXCLUDE:
+                if self.is_required(context.options):
+                    # required field cannot be excluded
+                    context.handle_error(error)
+                else:
+                    context.collect_waring(error.formatted_message)
+                # return default if provided
+                # return unprovided if no default is set
+                if excluded is not None:
+                    excluded.add(self.name)
+                return self.get_default(options=context.options, defer=False)
+            elif error_option == context.options.PRESERVE:
+                context.collect_waring(error.formatted_message)
+                return given
+            else:
+                context.handle_error(error)
+            return unprovided
 
         if self.discriminator_map and value is not None:
             if not isinstance(value, Mapping):
                 try:
                     value = context.transformer.to_dict(value)
                 except Exception as e:
-                    context.handle_error(
+                    return failed(
                         exc.ParseError(
                             item=self.name,
                             type=dict,
@@ -1041,7 +1063,6 @@ class ParserField:
                             origin_exc=e,
                         )
                     )
-                    return unprovided
 
             discriminator = value.get(self.discriminator)
             try:
@@ -1053,7 +1074,7 @@ class ParserField:
                 type = self.discriminator_map[discriminator]
                 # directly assign type instead parse it in a Logical context
             else:
-                context.handle_error(
+                return failed(
                     exc.DiscriminatorMismatchError(
                         discriminator=self.discriminator,
                         discriminator_value=discriminator,
@@ -1063,7 +1084,6 @@ class ParserField:
                         type=self.type,
                     )
                 )
-                return unprovided
 
         if not type:
             # type is None, not type(None), means the exact same as Any / Rule
@@ -1073,31 +1093,15 @@ class ParserField:
             try:
                 return new_context.transformer(value, type)  # noqa
             except Exception as e:
-                error = exc.ParseError(
-                    item=self.name,
-                    type=self.type,
-                    value=value,
-                    field=self,
-                    origin_exc=e,
+                return failed(
+                    exc.ParseError(
+                        item=self.name,
+                        type=self.type,
+                        value=value,
+                        field=self,
+                        origin_exc=e,
+                    )
                 )
-                error_option = self.get_on_error(context.options)
-                if error_option == context.options.EXCLUDE:
-                    if self.is_required(context.options):
-                        # required field cannot be excluded
-                        context.handle_error(error)
-                    else:
-                        context.collect_waring(error.formatted_message)
-                    # return default if provided
-                    # return unprovided if no default is set
-                    if excluded is not None:
-                        excluded.add(self.name)
-                    return self.get_default(options=context.options, defer=False)
-                elif error_option == context.options.PRESERVE:
-                    context.collect_waring(error.formatted_message)
-                    return value
-                else:
-                    context.handle_error(error)
-                return unprovided
 
     @classmethod
     def process_annotate_meta(cls, m, **kwargs):
